@@ -15,4 +15,29 @@ def head_side_crash_inside_delete(case_text, detail):
     return flavour_plain and tp < n < hp
 
 
-FEATURES = {f.__name__: f for f in [head_side_crash_inside_delete]}
+def _kv(text):
+    return dict(t.split("=", 1) for t in text.split() if "=" in t)
+
+
+def dense_blocks_estimate(case_text, detail):
+    """C16/F7: no gap between header times exceeds the configured block time and at least one is strictly
+    smaller (blocks denser than blockTime on average) - the situation in which the head-based estimate,
+    which assumes every gap equals blockTime, over-prunes."""
+    d = _kv(case_text)
+    try:
+        return int(d["maxgap"]) <= int(d["bt"]) and 0 < int(d["mingap"]) < int(d["bt"])
+    except (KeyError, ValueError):
+        return False
+
+
+def network_head_above_local_head(case_text, detail):
+    """C16/F15: the head handed to the tail computation lies above the local store head (the node
+    was offline for longer than the pruning window) and no SyncFromHeight is configured."""
+    d = _kv(case_text)
+    try:
+        return int(d["local"]) < int(d["headH"]) and int(d["sfh"]) == 0
+    except (KeyError, ValueError):
+        return False
+
+
+FEATURES = {f.__name__: f for f in [head_side_crash_inside_delete, dense_blocks_estimate, network_head_above_local_head]}
